@@ -288,6 +288,9 @@ func Consensus(trees <-chan Trees, cutoff float64) (*Tree, error) {
 			return nil, curtree.Err
 		}
 
+		// The two root branches of a rooted tree define the same bipartition:
+		// they count as one branch
+		curtree.Tree.UnRoot()
 		if err = curtree.Tree.ReinitIndexes(); err != nil {
 			return nil, err
 		}
